@@ -281,19 +281,45 @@ fn threads_workload() -> Result<u64, String> {
         typed += t;
         caps += c;
     }
-    // sequential model: CapsLock parity = parity of total presses; NumLock (starts on) toggled 4*per_thread times
-    let kb = SHARED.lock().unwrap_or_else(|e| e.into_inner());
-    let want_caps = caps % 2 == 1;
-    if kb.get_modifiers().capslock != want_caps {
-        return Err(format!("after {} CapsLock presses from 4 threads the shared keyboard reports capslock={}", caps, kb.get_modifiers().capslock));
+    // Oracle: the same multiset of self-contained sections executed sequentially on a run-time-built twin.  (Every
+    // section leaves the decoder in the state it found it, apart from the two lock toggles, so any interleaving of
+    // whole sections must end in the same state and decode the same number of characters as the sequential run.)
+    let mut twin = Keyboard::new(ScancodeSet2::new(), AnyLayout::Uk105Key(Uk105Key), HandleControl::Ignore);
+    let mut twin_typed = 0u64;
+    for _ in 0..caps {
+        for b in [0x58u8, 0xF0, 0x58] {
+            if let Ok(Some(ev)) = twin.add_byte(b) {
+                let _ = twin.process_keyevent(ev);
+            }
+        }
+        for b in [0x1Cu8, 0xF0, 0x1C] {
+            if let Ok(Some(ev)) = twin.add_byte(b) {
+                if let Some(DecodedKey::Unicode(c)) = twin.process_keyevent(ev) {
+                    if c == 'a' || c == 'A' {
+                        twin_typed += 1;
+                    }
+                }
+            }
+        }
     }
-    if typed != caps {
-        return Err(format!("{} of {} shared 'a' presses decoded", typed, caps));
+    let mut twin1 = Keyboard::new(ScancodeSet1::new(), Us104Key, HandleControl::MapLettersToUnicode);
+    for _ in 0..(4 * per_thread) {
+        for b in [0x45u8, 0xC5] {
+            if let Ok(Some(ev)) = twin1.add_byte(b) {
+                let _ = twin1.process_keyevent(ev);
+            }
+        }
+    }
+    let kb = SHARED.lock().unwrap_or_else(|e| e.into_inner());
+    if kb.get_modifiers() != twin.get_modifiers() {
+        return Err(format!("after {} sections from 4 threads the shared keyboard reports {:?}, a sequential twin {:?}", caps, kb.get_modifiers(), twin.get_modifiers()));
+    }
+    if typed != twin_typed {
+        return Err(format!("{} shared presses decoded as the letter from 4 threads, {} sequentially", typed, twin_typed));
     }
     let kb1 = SHARED1.lock().unwrap_or_else(|e| e.into_inner());
-    let want_num = (4 * per_thread) % 2 == 0;
-    if kb1.get_modifiers().numlock != want_num {
-        return Err(format!("shared Set 1 keyboard numlock={} after {} presses", kb1.get_modifiers().numlock, 4 * per_thread));
+    if kb1.get_modifiers() != twin1.get_modifiers() {
+        return Err(format!("shared Set 1 keyboard reports {:?}, a sequential twin {:?}", kb1.get_modifiers(), twin1.get_modifiers()));
     }
     Ok(per_thread * 4 * 14)
 }
